@@ -241,8 +241,7 @@ Definition fpoint_set (s : source) (rmin rmax : N) : fres :=
   | SText (Some t) o =>
     match text_number NF32 (or_f1 o) t with
     | CErr _ => FErr BadType
-    | CZero => FZero
-    | CKeep => FErr BadType                    (* white space only: the string iterator has no element *)
+    | CZero | CKeep => FErr BadType            (* white space only: the string iterator has no element *)
     | CVal vx =>
       let x := nv_bits vx in
       let e1 := Z.to_nat (fo_end (or_f1 o)) in
